@@ -9,7 +9,7 @@ THEOREMS = ["C09_handler_runs_only_if_active", "C09_calls_carry_active", "C09_in
             "C09_restart_stages_once_at_time", "C09_old_incarnation_silent", "C09_fresh_after_restart_partial", "C09_shutdown_frame",
             "C09_delivery_independent_of_m", "C09_run_terminates", "C09_run_is_generated", "C09_first_state_is_fresh",
             "C09_shutdown_leaves_fresh", "C09_restart_runs_first_start_callback", "C09_module_local", "C09_loop_is_mlog",
-            "C09_restarted_as_fresh", "C09_fresh_is_first_state"]
+            "C09_restarted_as_fresh", "C09_fresh_is_first_state", "C09_reset_panic_frame"]
 QUICK_N = 2500; THOROUGH_N = 120000
 RULE = ("scripts = 2..4 scripted modules on a ring (gate out -> next module, gate far -> transit gate of the next module -> the one after), "
         "each with handler programs selected by payload, start programs selected by incarnation, up to 3 tokio tasks (sleep / log / send / "
@@ -136,8 +136,11 @@ def check_lifecycle(d, rs):
                 r = recs[i]
                 if r[2] != now or r[3] != inc[m] + 1:
                     raise Bad("reset record %s: expected time %d and incarnation %d" % (r, now, inc[m] + 1))
-                if i != len(recs) - 1:
-                    raise Bad("records %s follow the reset of module %d in the same event" % (recs[i + 1:], m))
+                tail = [tuple(x) for x in recs[i + 1:]]
+                want_tail = [(R_RPANIC, m, 0, 0, 0)] if d["mods"][m].get("rsend") else []
+                if tail != want_tail:
+                    raise Bad("records %s follow the reset of module %d in the same event (expected %s: its reset %s)"
+                              % (tail, m, want_tail, "calls send / schedule" if want_tail else "does nothing"))
                 j = i
                 ids, ended = [], []
                 while j > 0 and recs[j - 1][0] == R_TEND and recs[j - 1][4] == 2:
